@@ -27,6 +27,7 @@ import (
 	"strconv"
 	"strings"
 	"sync"
+	"sync/atomic"
 	"syscall"
 	"time"
 	"unsafe"
@@ -77,6 +78,7 @@ type report struct {
 	OK     bool                   `json:"ok,omitempty"`
 	ISS    uint32                 `json:"iss,omitempty"`
 	State  string                 `json:"state,omitempty"`
+	GapMs  int                    `json:"gap_ms,omitempty"`
 }
 
 type BatchPanic struct {
@@ -92,7 +94,18 @@ type childCanary struct {
 	c      *canary.Canary
 	peers  []int
 	cancel context.CancelFunc
+	// stalled: a write to the socketpair gave up because the receive loop had not taken
+	// a frame for stallAfter (see writeFrame); further bulk writes are not attempted
+	stalled int32
 }
+
+// stallAfter bounds a single write to a canary's socketpair. The datagram queue holds a
+// handful of frames; a write waits only while it is full, i.e. while the receive loop
+// takes nothing. A loop that is merely slow (state table scans during a flood) takes a
+// frame every few hundred microseconds.
+const stallAfter = 20 * time.Second
+
+var errStall = errors.New("stalled")
 
 type repWriter struct {
 	mu sync.Mutex
@@ -230,7 +243,11 @@ func childMain() int {
 				w.send(report{T: "err", ID: id, Err: "bad F command"})
 				continue
 			}
-			if err := writeFrame(k.peers[payload[0]], payload[1:]); err != nil {
+			// a single frame (the probe) is always attempted, also after a stall
+			if err := writeFrame(k.peers[payload[0]], payload[1:]); err == errStall {
+				atomic.StoreInt32(&k.stalled, 1)
+				w.send(report{T: "stall", ID: id})
+			} else if err != nil {
 				w.send(report{T: "err", ID: id, Err: "write to socketpair: " + err.Error()})
 			}
 		case 'M': // many frames through the socketpair: [ifindex] then (u16 len, frame)*
@@ -240,17 +257,54 @@ func childMain() int {
 			}
 			fd := k.peers[payload[0]]
 			p := payload[1:]
-			for len(p) >= 2 {
+			for len(p) >= 2 && atomic.LoadInt32(&k.stalled) == 0 {
 				l := int(binary.BigEndian.Uint16(p[0:2]))
 				if 2+l > len(p) {
 					break
 				}
-				if err := writeFrame(fd, p[2:2+l]); err != nil {
+				if err := writeFrame(fd, p[2:2+l]); err == errStall {
+					// the loop has stopped reading: the rest of the history cannot be delivered
+					atomic.StoreInt32(&k.stalled, 1)
+					w.send(report{T: "stall", ID: id})
+					break
+				} else if err != nil {
 					w.send(report{T: "err", ID: id, Err: "write to socketpair: " + err.Error()})
 					break
 				}
 				p = p[2+l:]
 			}
+		case 'T': // paced frames through the socketpair: [ifindex] then (u32 delay ms, u16 len, frame)*
+			if len(payload) < 1 || int(payload[0]) >= len(k.peers) {
+				w.send(report{T: "err", ID: id, Err: "bad T command"})
+				continue
+			}
+			go paced(k, id, k.peers[payload[0]], payload[1:], w)
+		case 'w': // walk: inject each frame under recover, drain after each; reply with everything emitted
+			r := report{T: "walk", ID: id}
+			p := payload
+			for len(p) >= 2 {
+				l := int(binary.BigEndian.Uint16(p[0:2]))
+				if 2+l > len(p) {
+					break
+				}
+				frame := p[2 : 2+l]
+				p = p[2+l:]
+				func() {
+					defer func() {
+						if e := recover(); e != nil {
+							if len(r.Panics) < 100 {
+								r.Panics = append(r.Panics, BatchPanic{Index: r.N, Msg: fmt.Sprint(e), Where: where(debug.Stack())})
+							}
+						}
+					}()
+					k.c.InjectFrame(frame)
+				}()
+				for _, f := range k.c.DrainTx() {
+					r.Tx = append(r.Tx, hex.EncodeToString(f))
+				}
+				r.N++
+			}
+			w.send(r)
 		case 'J', 'j': // inject one frame synchronously, reply with the drained transmit ring
 			r := report{T: "inj", ID: id}
 			func() {
@@ -442,14 +496,60 @@ func quiet(dump []byte, loops bool) bool {
 	return true
 }
 
+// writeFrame writes one frame to the peer end of a socketpair. The descriptor has a send
+// timeout of stallAfter (newChildCanary): when the queue stays full for that long - the
+// receive loop takes nothing - the write gives up with errStall instead of blocking the
+// child's command loop (and, behind it, the parent) for ever.
 func writeFrame(fd int, frame []byte) error {
 	for {
 		_, err := syscall.Write(fd, frame)
 		if err == syscall.EINTR {
 			continue
 		}
+		if err == syscall.EAGAIN {
+			// whoever writes next (the probe) need not wait that long again
+			tv := syscall.NsecToTimeval(int64(stallAfter / 4))
+			syscall.SetsockoptTimeval(fd, syscall.SOL_SOCKET, syscall.SO_SNDTIMEO, &tv)
+			return errStall
+		}
 		return err
 	}
+}
+
+// paced writes frames with the given delays before each of them (a scan that takes its
+// time) and reports the largest gap between two consecutive writes as it really was.
+func paced(k *childCanary, id uint32, fd int, p []byte, w *repWriter) {
+	r := report{T: "paced", ID: id}
+	var last time.Time
+	for len(p) >= 6 {
+		delay := time.Duration(binary.BigEndian.Uint32(p[0:4])) * time.Millisecond
+		l := int(binary.BigEndian.Uint16(p[4:6]))
+		if 6+l > len(p) {
+			break
+		}
+		if delay > 0 {
+			time.Sleep(delay)
+		}
+		err := writeFrame(fd, p[6:6+l])
+		now := time.Now()
+		if err == errStall {
+			atomic.StoreInt32(&k.stalled, 1)
+			r.Err = "stalled"
+			break
+		} else if err != nil {
+			r.Err = "write to socketpair: " + err.Error()
+			break
+		}
+		if r.N > 0 {
+			if g := int(now.Sub(last) / time.Millisecond); g > r.GapMs {
+				r.GapMs = g
+			}
+		}
+		last = now
+		r.N++
+		p = p[6+l:]
+	}
+	w.send(r)
 }
 
 func newChildCanary(id uint32, cfg Config, w *repWriter) (*childCanary, error) {
@@ -477,7 +577,12 @@ func newChildCanary(id uint32, cfg Config, w *repWriter) (*childCanary, error) {
 	}
 	k := &childCanary{c: c}
 	for _, name := range cfg.Interfaces {
-		k.peers = append(k.peers, c.VerifPeer(name))
+		fd := c.VerifPeer(name)
+		k.peers = append(k.peers, fd)
+		tv := syscall.NsecToTimeval(int64(stallAfter))
+		if err := syscall.SetsockoptTimeval(fd, syscall.SOL_SOCKET, syscall.SO_SNDTIMEO, &tv); err != nil {
+			return nil, fmt.Errorf("SO_SNDTIMEO on the socketpair: %v", err)
+		}
 	}
 	if cfg.Start {
 		// never cancelled: cancelling closes the epoll descriptor under the loop, which
@@ -629,14 +734,20 @@ func (c *Child) reader() {
 			var r report
 			dec := json.NewDecoder(bytes.NewReader(line))
 			if derr := dec.Decode(&r); derr == nil {
-				if r.T == "ev" || r.T == "hold" {
+				if r.T == "ev" || r.T == "hold" || r.T == "stall" || r.T == "paced" {
 					c.mu.Lock()
 					k := c.canaries[r.ID]
 					c.mu.Unlock()
-					if k != nil && r.T == "ev" {
+					switch {
+					case k == nil:
+					case r.T == "ev":
 						k.add(Ev{M: r.M})
-					} else if k != nil {
+					case r.T == "hold":
 						k.held()
+					case r.T == "stall":
+						k.stall()
+					default:
+						k.pacedDone(r)
 					}
 				} else {
 					c.replies <- r
@@ -801,6 +912,106 @@ type Canary struct {
 	cond   *sync.Cond
 	events []Ev
 	holds  int
+	stalls int
+	paced  []Paced
+}
+
+// Paced is the child's account of one SendPaced call.
+type Paced struct {
+	Sent     int    // frames written
+	MaxGapMs int    // largest real gap between two consecutive writes
+	Err      string // "stalled": the receive loop stopped taking frames
+}
+
+func (k *Canary) stall() {
+	k.mu.Lock()
+	k.stalls++
+	k.cond.Broadcast()
+	k.mu.Unlock()
+}
+
+func (k *Canary) pacedDone(r report) {
+	k.mu.Lock()
+	k.paced = append(k.paced, Paced{Sent: r.N, MaxGapMs: r.GapMs, Err: r.Err})
+	if r.Err == "stalled" {
+		k.stalls++
+	}
+	k.cond.Broadcast()
+	k.mu.Unlock()
+}
+
+// Stalled reports whether a write to the canary's socketpair was given up because the
+// receive loop had not taken a single frame for 20 s (the frames after it in that
+// SendMany call, and later SendMany calls, were not delivered; Send is still attempted).
+func (k *Canary) Stalled() bool {
+	k.mu.Lock()
+	defer k.mu.Unlock()
+	return k.stalls > 0
+}
+
+// SendPaced delivers the frames through the socketpair from a goroutine of the child
+// that sleeps delaysMs[i] before frame i (asynchronous; see WaitPaced).
+func (k *Canary) SendPaced(frames [][]byte, delaysMs []int) error {
+	buf := []byte{0}
+	for i, f := range frames {
+		d := 0
+		if i < len(delaysMs) {
+			d = delaysMs[i]
+		}
+		buf = append(buf, byte(d>>24), byte(d>>16), byte(d>>8), byte(d), byte(len(f)>>8), byte(len(f)))
+		buf = append(buf, f...)
+	}
+	k.ch.wmu.Lock()
+	defer k.ch.wmu.Unlock()
+	return k.ch.command('T', k.id, buf)
+}
+
+// WaitPaced waits until n SendPaced calls have been completed by the child and returns
+// their accounts (ok=false: timeout or dead child).
+func (k *Canary) WaitPaced(n int, timeout time.Duration) ([]Paced, bool) {
+	deadline := time.Now().Add(timeout)
+	t := time.AfterFunc(timeout+time.Millisecond, k.wake)
+	defer t.Stop()
+	k.mu.Lock()
+	defer k.mu.Unlock()
+	for len(k.paced) < n {
+		if !time.Now().Before(deadline) || k.ch.Dead() {
+			return append([]Paced(nil), k.paced...), false
+		}
+		k.cond.Wait()
+	}
+	return append([]Paced(nil), k.paced...), true
+}
+
+// Walk injects the frames one by one (InjectFrame under recover), pops the transmit ring
+// after each and returns every frame the listener emitted, in order.
+func (k *Canary) Walk(frames [][]byte) (tx [][]byte, panics []BatchPanic, err error) {
+	base := 0
+	for len(frames) > 0 {
+		var buf []byte
+		n := 0
+		for n < len(frames) && n < 4096 && len(buf) < 1<<20 {
+			f := frames[n]
+			buf = append(buf, byte(len(f)>>8), byte(len(f)))
+			buf = append(buf, f...)
+			n++
+		}
+		r, err := k.ch.call('w', k.id, buf, "walk")
+		if err != nil {
+			return tx, panics, err
+		}
+		for _, h := range r.Tx {
+			b, _ := hex.DecodeString(h)
+			tx = append(tx, b)
+		}
+		for _, p := range r.Panics {
+			p.Index += base
+			panics = append(panics, p)
+		}
+		base += n
+		frames = frames[n:]
+	}
+	return tx, panics, nil
 }
 
 func (k *Canary) held() {
